@@ -35,11 +35,12 @@ type rule struct {
 // pkgRules: import path -> identifier -> rule.
 var pkgRules = map[string]map[string]rule{
 	"sync/atomic": {
-		"Uint32": {"vatomic", ""}, "Uint64": {"vatomic", ""}, "Pointer": {"vatomic", ""},
+		"Uint32": {"vatomic", ""}, "Uint64": {"vatomic", ""}, "Pointer": {"vatomic", ""}, "Bool": {"vatomic", ""},
 		"StoreUint32": {"vatomic", ""}, "LoadUint32": {"vatomic", ""}, "CompareAndSwapUint32": {"vatomic", ""},
 		"StoreUint64": {"vatomic", ""}, "LoadUint64": {"vatomic", ""}, "AddUint64": {"vatomic", ""}, "CompareAndSwapUint64": {"vatomic", ""},
 	},
-	"sync": {"Mutex": {"vsync", ""}, "Once": {"vsync", ""}},
+	"sync":    {"Mutex": {"vsync", ""}, "Once": {"vsync", ""}},
+	"runtime": {"Gosched": {"vsync", ""}},
 	"os": {
 		"OpenFile": {"vos", ""}, "ReadFile": {"vos", ""}, "WriteFile": {"vos", ""}, "MkdirAll": {"vos", ""},
 		"Remove": {"vos", ""}, "Stat": {"vos", ""}, "ReadDir": {"vos", ""}, "Getenv": {"vos", ""},
@@ -69,7 +70,7 @@ type pkgSpec struct {
 }
 
 var specs = []pkgSpec{
-	{"/repo", "./internal/counter", []string{"sync/atomic", "sync", "os", "os.File", "golang.org/x/telemetry/internal/mmap", "time", "math/rand"}},
+	{"/repo", "./internal/counter", []string{"sync/atomic", "sync", "os", "os.File", "golang.org/x/telemetry/internal/mmap", "time", "math/rand", "runtime"}},
 	{"/repo", ".", []string{"os", "os.File", "os/exec", "time"}},
 	{"/repo", "./internal/upload", []string{"os", "os.File", "net/http", "crypto/rand", "golang.org/x/telemetry/internal/configstore", "sync"}},
 	{"/repo", "./internal/telemetry", []string{"os"}},
